@@ -12,7 +12,7 @@ for f in glob.glob(src + "/*_test.go") + glob.glob(src + "/README.md"):
 meta = {
     "property": pid,
     "needs_to_manifest": needs,
-    "demo": {"file": "demo_test.go.txt", "copy_to": pkg + "/zz_mutdemo_test.go", "cmd": f"go test -vet=off -count=1 -run 'Demo|Mut|Seed' ./{pkg}/"},
+    "demo": {"file": "demo_test.go.txt", "copy_to": pkg + "/zz_mutdemo_test.go", "cmd": f"go test -vet=off -count=1 -run '^Test' ./{pkg}/  (only the tests of the demo file are relevant)"},
     "confirmed": "tools/confirm_mutant.sh in scratch worktree: existing suite PASS with change; demo FAIL with change, PASS without",
     "check_cmd": f"tools/try_mutant.sh seeded/{pid}-{m}/patch.diff {pid} quick",
     "detected_by_check": det,
